@@ -775,7 +775,9 @@ def run(ctx):
                 'non-trivial = pad length > 0 and the call succeeds (pad), successful call (convolve), at least one loop pass '
                 '(optimize_window); typed grids (fixed, enumerated): every helper x input dtype bool/int8..int64/uint8..uint64/float16/'
                 'float32/float64 x container (ndarray, list/tuple of Python ints, bools, floats) x memory layout (reversed/strided views, '
-                'Fortran order, transposed, negative strides) x magnitudes 1e-300..1e300, output dtype compared with coq/C18/DType.v')
+                'Fortran order, transposed, negative strides) x magnitudes 1e-300..1e300, output dtype compared with coq/C18/DType.v; '
+                'optimize_window grid (fixed): min_half_window None/0/1/2 x max_half_window None/2/5 x increment 1/2 x max_hits 1/3 x window_tol 1e-6/1e-2 '
+                'x data constant/ramp/monotone/step/noisy/peaked x 1-D sizes 1..60 and 2-D shapes incl. a side of 1-3')
     ctx.trusted += [
         'numpy.pad for the modes used through the contract np_contract (length, interior); five modes are modelled '
         'concretely and compared exactly, all eleven are checked by the oracle on every run',
@@ -795,13 +797,14 @@ def run(ctx):
     corr_kernels(ctx)
     corr_ow(ctx)
     corr_2d(ctx)
-    from . import c18_dtypes
+    from . import c18_dtypes, c18_ow
     found_typed = c18_dtypes.run_all(ctx)
+    found_typed += c18_ow.run_grid(ctx)
     budget = 1 if (ok and not ctx.broken) else 4
     if ctx.tier == 'thorough':
         budget = max(budget, 3)
     found = oracle_pad(ctx, budget) + oracle_conv(ctx, budget) + oracle_kernels(ctx, budget) + oracle_ow(ctx, budget) + oracle_2d(ctx, budget)
-    ctx.note(f'direct oracle budget x{budget}: {found} failing inputs; typed (dtype/container/layout/magnitude) grids: {found_typed} failing inputs')
+    ctx.note(f'direct oracle budget x{budget}: {found} failing inputs; typed (dtype/container/layout/magnitude) and optimize_window option grids: {found_typed} failing inputs')
     ctx.note('not covered: callable pad modes, pad_kwargs (constant_values, end_values, reflect_type=odd), non-integer '
              'extrapolate_window, complex/longdouble/object data, float16 with a fitted window (numpy.linalg rejects float16), bool and float16 data in optimize_window (numpy/scipy raise), 4-value pad_length in pad_edges2d, N = 1 with window >= 2 '
              '(library warns, outside the quantifier); float rounding of the kernels is only sampled')
@@ -828,8 +831,10 @@ def replay(rep):
         return 1
     if kind == 'ow':
         st, out = call(utils.optimize_window, np.array(case['data']), **case.get('kwargs', {}))
-        print('replay optimize_window ->', st, out)
-        return 1
+        from . import c18_ow
+        err = c18_ow.replay_verdict(case, st, out)
+        print('replay optimize_window ->', st, repr(out), '| contract (integer(s) >= 1, 1 or in [min, max)):', err or 'holds')
+        return 1 if err else 0
     if kind == 'gauss':
         print('replay gaussian_kernel ->', call(utils.gaussian_kernel, case['window_size'], case['sigma']))
         return 1
